@@ -117,7 +117,8 @@ def generate(rng, tier, index):
         Ts = [[1, 2, 8], [3, 12, 24], [5, 16], [7, 10, 20]][index]
         return {"mode": "grid", "Ts": Ts, "random_seed": int(rng.integers(0, 2**31)), "n_random": 200}
     spec = specgen.rand_scene(
-        rng, T=(5, 16), shape=(4, 8), pml=(2, 3), p_nonuniform=0.3, tiers=("iso",), n_sources=(1, 3), n_detectors=(0, 0), sigma_e=False, mu=False
+        rng, T=(5, 16), shape=(4, 8), pml=(2, 3), p_nonuniform=0.3, tiers=("iso",), n_sources=(1, 3), n_detectors=(0, 0), sigma_e=False, mu=False,
+        source_kinds=("dipole", "dipole", "uniform_plane", "gaussian_plane", "tfsf_region", "mode"),
     )
     spec["mode"] = "scene"
     T = spec["steps"]
@@ -129,6 +130,17 @@ def generate(rng, tier, index):
         if sw:
             d["switch"] = sw
         dets.append(d)
+    # detectors of the other kinds (co-located field, energy, Poynting; spatial and reduced): each gets an always-on twin,
+    # the switched detector must hold exactly the twin's records of its active steps, in order
+    for i in range(int(rng.integers(0, 3))):
+        d = specgen.rand_detector(rng, f"k{i}", spec["shape"], T, kinds=("field", "energy", "poynting"), switch=False)
+        sw = specgen.rand_switch(rng, T, p_default=0.0)
+        if sw:
+            d["switch"] = sw
+        tw = {k: v for k, v in d.items() if k != "switch"}
+        tw["name"] = d["name"] + "_twin"
+        d["twin"] = tw["name"]
+        dets += [d, tw]
     spec["detectors"] = dets
     spec["ops"] = [{"op": "crash_restore", "at": int(t)} for t in sorted(set(int(x) for x in rng.integers(1, T, size=int(rng.integers(0, 3)))))]
     return spec
@@ -232,21 +244,26 @@ def execute(spec):
 
         raise env.HarnessError(f"T mismatch {scn.T} != {T}")
     st = dr.Stepper(scn)
-    nosrc = dr.Stepper(scn, objects=scn.objects.replace_sources([]))
+    # one counterfactual twin per source: the same scene with exactly that source removed
+    names = [s["name"] for s in spec["sources"]]
+    byname = {o.name: o for o in scn.objects.sources}
+    forks = {n: dr.Stepper(scn, objects=scn.objects.replace_sources([byname[m] for m in names if m != n])) for n in names}
     crash_at = {o["at"] for o in spec.get("ops", [])}
     try:
         state = st.state0()
-        traj, diffs = [], []
+        traj, diffs = [], {n: [] for n in names}
         for t in range(T):
-            ghost = nosrc.fwd(state, 1)  # counterfactual: the same step without any source
+            ghosts = {n: forks[n].fwd(state, 1) for n in names}  # counterfactual: the same step without source n
             state = st.fwd(state, 1)
-            fa, fb = dr.fields_np(state), dr.fields_np(ghost)
+            fa = dr.fields_np(state)
             traj.append((fa["E"], fa["H"]))
-            diffs.append(max(float(np.max(np.abs(fa[k] - fb[k]))) if fa[k].size else 0.0 for k in fa))
+            for n in names:
+                fb = dr.fields_np(ghosts[n])
+                diffs[n].append(max(float(np.max(np.abs(fa[k] - fb[k]))) if fa[k].size else 0.0 for k in fa))
             if (t + 1) in crash_at:
                 state = dr.roundtrip(state)
                 stats["fault_crash_restore"] = stats.get("fault_crash_restore", 0) + 1
-        stats["fault_counterfactual_fork"] = T
+        stats["fault_counterfactual_fork"] = T * len(names)
     except Exception as e:
         # explicit (property, construct) pair: the statement names the always-off / never-active schedule,
         # so a run that cannot even be traced because of such a detector is a violation, not a harness error
@@ -259,29 +276,48 @@ def execute(spec):
                 "signature": specgen.scene_signature(spec, "never_active"), "digest": "never_active_crash",
             }
         raise
-    stats["sim_steps"] = 2 * T
-    stats["sim_time_fs"] = 2 * T * scn.dt * 1e15
+    stats["sim_steps"] = (1 + len(names)) * T
+    stats["sim_time_fs"] = stats["sim_steps"] * scn.dt * 1e15
     scale = max(max(float(np.max(np.abs(e))), float(np.max(np.abs(h)))) for e, h in traj)
-    any_on = [any(src_on[n][t] for n in src_on) for t in range(T)]
     n_inactive_nonzero = 0
-    for t in range(T):
-        if not any_on[t]:
-            rel = diffs[t] / scale if scale > 0 else (0.0 if diffs[t] == 0 else float("inf"))
-            resid["inactive_injection"] = max(resid["inactive_injection"], rel)
-            if rel > 1e-12:
-                viol.append({"monitor": "injection_at_inactive_step", "step": t, "metric": "rel_diff", "value": rel, "tolerance": 1e-12})
-                break
-            if scale > 0 and (np.max(np.abs(traj[t][0])) > 0 or np.max(np.abs(traj[t][1])) > 0):
-                n_inactive_nonzero += 1
-        elif diffs[t] > 0:
-            stats["probe_active_step_injected"] = stats.get("probe_active_step_injected", 0) + 1
+    for n in names:
+        for t in range(T):
+            if not src_on[n][t]:
+                rel = diffs[n][t] / scale if scale > 0 else (0.0 if diffs[n][t] == 0 else float("inf"))
+                resid["inactive_injection"] = max(resid["inactive_injection"], rel)
+                if rel > 1e-12:
+                    viol.append({"monitor": "injection_at_inactive_step", "source": n, "kind": byname[n].__class__.__name__, "step": t, "metric": "rel_diff", "value": rel, "tolerance": 1e-12})
+                    break
+                if scale > 0 and (np.max(np.abs(traj[t][0])) > 0 or np.max(np.abs(traj[t][1])) > 0):
+                    n_inactive_nonzero += 1
+            elif diffs[n][t] > 0:
+                stats["probe_active_step_injected"] = stats.get("probe_active_step_injected", 0) + 1
     # detectors: exactly-once, ordered, equal to the trajectory
     dets = dr.detectors_np(state)
     n_records = 0
     for d in spec["detectors"]:
         on = det_on[d["name"]]
-        rec = dets[f"{d['name']}/fields"]
         active = [t for t in range(T) if on[t]]
+        if d.get("twin"):
+            for key in sorted(k for k in dets if k.startswith(d["name"] + "/")):
+                rec, twin = dets[key], dets[d["twin"] + "/" + key.split("/", 1)[1]]
+                if rec.shape[0] != len(active) or twin.shape[0] != T:
+                    viol.append({"monitor": "record_count", "detector": d["name"], "kind": d["kind"], "got": int(rec.shape[0]), "want": len(active), "twin_records": int(twin.shape[0])})
+                    break
+                want = twin[active]
+                sc_k = float(np.max(np.abs(twin))) if twin.size else 0.0
+                rd = dr.rel_diff(want, rec, sc_k if sc_k > 0 else None)
+                resid["twin_mismatch"] = max(resid.get("twin_mismatch", 0.0), rd if np.isfinite(rd) else 1e300)
+                if not (rd <= 1e-12):
+                    bad = [j for j in range(len(active)) if dr.rel_diff(want[j], rec[j], sc_k if sc_k > 0 else None) > 1e-12]
+                    viol.append({"monitor": "record_differs_from_always_on_twin", "detector": d["name"], "kind": d["kind"], "record": bad[0] if bad else -1, "step": active[bad[0]] if bad else -1, "metric": "rel_diff", "value": rd, "tolerance": 1e-12})
+                    break
+                n_records += len(active)
+                stats["probe_twin_records"] = stats.get("probe_twin_records", 0) + len(active)
+            continue
+        if d["name"].endswith("_twin"):
+            continue
+        rec = dets[f"{d['name']}/fields"]
         if rec.shape[0] != len(active):
             viol.append({"monitor": "record_count", "detector": d["name"], "got": int(rec.shape[0]), "want": len(active)})
             continue
@@ -296,6 +332,8 @@ def execute(spec):
             n_records += 1
     stats["probe_never_active_detector"] = sum(1 for d in spec["detectors"] if not any(det_on[d["name"]]))
     stats["probe_never_active_source"] = sum(1 for n in src_on if not any(src_on[n]))
+    for s_ in spec["sources"]:
+        stats["probe_source_" + s_["kind"]] = stats.get("probe_source_" + s_["kind"], 0) + 1
     stats["records_checked"] = n_records
     stats["inactive_steps_with_field"] = n_inactive_nonzero
     kinds = sorted(set(tuple(sorted((s.get("switch") or {}).keys())) for s in spec["sources"] + spec["detectors"]))
